@@ -111,7 +111,7 @@ theorem desc_U (ns : List Sh) (hw : WellIdx ns) {p d : T} (hd : Desc p d) :
 def ptr : T → Option Nat := fun t => some t.id
 
 /-- every yielded node is reachable from the visited handle -/
-theorem visit_desc (key : T → Option Nat) : ∀ (t : T) (seen : Seen Nat) (idx : Nat),
+theorem visit_desc {K : Type} [DecidableEq K] (key : T → Option K) : ∀ (t : T) (seen : Seen K) (idx : Nat),
     ∀ o ∈ (visit key t seen idx).1, Desc t o.node := by
   have hfin : ∀ (t : T) (li ri outs seen idx), (∀ o ∈ outs, Desc t o.node) →
       ∀ o ∈ (visit.fin key t li ri outs seen idx).1, Desc t o.node := by
